@@ -65,6 +65,22 @@ reg("C40","ctrl","exploration","reference-model comparison (independent selector
     "real Manager with 0-40 paused sessions, random names/labels: List by identifiers, names and label selectors (restricted grammar) returns exactly the reference's set in creation order and fails on a miss; conflict/problem lists sorted depth-first and truncated with exact excluded counts; fastpath.Less vs a component-wise comparator incl. strict-weak-order laws.",
     "identifier-prefix specifications are not exercised")
 
+reg("C30","statex","exploration","linearizability checking (porcupine counter model) of recorded client-boundary histories + monotonicity and bounded-progress checks",
+    "goroutines mix NotifyOfChange, TrackingLock Lock/Unlock, WaitForChange(prev in {0, stale, current, future}), cancellation and Terminate on the real Tracker under -race and GOMAXPROCS 16/4/2; each short history is checked for per-caller index monotonicity, unlock counting, linearizability against a counter model of tracker.go's contract, and control-relative bounded progress at quiescence.",
+    "checker timeout or an unhealthy heartbeat makes a case inconclusive, never a violation; 'never misses' is restated as bounded progress")
+reg("C31","statex","exploration","journal checking of strobe/signal times against a sound upper bound and a control-relative no-loss bound",
+    "strobe bursts with gaps around the window (0.2x-3x), windows 1-50 ms, with/without consumer, termination at random points on the real Coalescer: signals <= [n>0] + #{i: r_(i+1) - s_i >= window}; never a second buffered signal; after the last strobe a signal arrives within the control-relative bound; Strobe never blocks after Terminate.",
+    "'eventually delivered' restated as delivery within a bound during which a control timer of the same window fired >= 50 times and the heartbeat stayed healthy")
+reg("C32","statex","exploration","journaling prompter (in-flight counter, entry ticks vs unregistration return) + frozen suffix specification",
+    "16-64 goroutines call prompting.Message/Prompt while another unregisters the prompter: never two invocations at once, none entered after UnregisterPrompter returned, late callers get an error; response mode through the verif hook for every single-character edit of the four documented suffixes and random prompts is echo iff the prompt ends with one of them.",
+    "uses the verif-tagged export VerifDetermineResponseMode")
+reg("C33","fwd","exploration","conservation checking of position-derived byte patterns + journal of Close/CloseWrite + statistics comparison",
+    "ForwardAndClose over unix socket pairs with journaling wrappers (all half-close orders, faults and cancellation at byte offsets): each direction delivers exactly the other side's pattern and EOF iff half-closed, both connections closed, the call returns (control-relative); through the real forwarding Manager with scripted endpoints: TotalConnections, Total{Out,In}boundData and OpenConnections match what the harness handed out and moved.",
+    "exact totals are demanded for fault-free connections only (the auditor may lag after an early return)")
+reg("C34","fwd","fault_enumeration","enumeration of every byte corruption and truncation point of the handshake exchange through a relay",
+    "real client and server halves of the agent magic-number and version handshakes through a relay: clean run accepted by both; scripted different-version and wrong-magic peers rejected; for every byte index of each direction a flip (16 values quick, 255 thorough) or truncation makes the half that received damaged bytes fail; no half returns nil having consumed anything but the expected bytes.",
+    "a side that finished before the damage is not required to fail retroactively (counted, not judged)")
+
 NOT_APPLICABLE = {}
 def main():
     props=[json.loads(l)["id"] for l in open("/verif/properties.jsonl")]
